@@ -21,7 +21,10 @@ pub mod fields;
 pub mod fixture;
 pub mod predicate;
 
-pub use backend::{Backend, BbD1, BbD4, CellEdit, KbD4, KbD5, Verdict, accept, accept_circuit, accept_with};
+pub use backend::{
+    Backend, BbD1, BbD4, CellEdit, KbD4, KbD5, Verdict, accept, accept_circuit, accept_with, prove_with,
+    verify_proof,
+};
 pub use case::Case;
 pub use exec::{Change, Deviation, Executed, Inputs, Port, execute, run_real};
 pub use faults::{Fault, Outcome, Site};
